@@ -42,7 +42,7 @@ type Targets struct {
 	Specs map[string]*TargetSpec // by URL host
 	Seen  []*Seen
 	// Default is used for hosts without a spec (nil = connection refused)
-	Default *TargetSpec
+	Default  *TargetSpec
 	holdNext map[string]chan struct{}
 }
 
